@@ -290,6 +290,22 @@ def run(ctx: Ctx) -> int:
                 # only factors that the evaluator really produces (table values w^k, 1+w^k) count as
                 # "values that arise from circuits tsim accepts"
                 wrapped_inputs.append((l, (pc, pp), (exact, ep)))
+    # the same products built the way the evaluator builds them: no power array passed (the class supplies its default)
+    dflt = [[(2, 0, 0, 0)] * k for k in (3, 100, 127, 128, 129, 200, 300)] + [[(1, 0, 1, 0)] * k for k in (64, 255, 256, 300)] + \
+           [[(1, 0, 1, 0), (2, 0, 0, 0), (1, 0, -1, 0), (0, 0, 1, 0)] * 80, [(0, 1, 0, 0), (2, 0, 0, 0)] * 140]
+    for l in dflt:
+        arr = ExactScalarArray(jnp.array(l, dtype=jnp.int32).reshape(len(l), 4))
+        pr = arr.prod(axis=0)
+        got = (tuple(int(v) for v in np.asarray(pr.coeffs)), int(pr.power))
+        exact = (1, 0, 0, 0)
+        for c in l:
+            exact = mul_ref(exact, c)
+        ctx.count(("prod-default-power", tuple(l)), nontrivial=True, bucket="prod-default-power")
+        if not _same_value(got, (exact, 0)):
+            ctx.violation("prod-default-power", f"prod of {len(l)} stabilizer-type factors (first {list(l[0])}, default power array) = {list(got[0])}*2^{got[1]}, "
+                          f"exact value has {max(abs(v) for v in exact).bit_length()} bits",
+                          {"op": "prod-default", "factors": [list(c) for c in l], "impl": [list(got[0]), got[1]]})
+            break
     ctx.sample({"op": "prod", "n_factors": len(prod_cases[5]), "first": prod_cases[5][:3], "impl": prod_impl[5]})
     # a silent wrap outside the guard is the unguarded clause of the property failing
     for l, got, exact in wrapped_inputs:
@@ -378,6 +394,15 @@ def replay(ctx: Ctx, obj) -> int:
             exact = mul_ref(exact, c)
         print("impl now:", got, "exact:", exact, sum(p for _, p in l))
         return 0 if _same_value(got, (exact, sum(p for _, p in l))) else 1
+    if r.get("op") == "prod-default":
+        l = [tuple(c) for c in r["factors"]]
+        pr = ExactScalarArray(jnp.array(l, dtype=jnp.int32).reshape(len(l), 4)).prod(axis=0)
+        got = (tuple(int(v) for v in np.asarray(pr.coeffs)), int(pr.power))
+        exact = (1, 0, 0, 0)
+        for c in l:
+            exact = mul_ref(exact, c)
+        print("impl now:", got)
+        return 0 if _same_value(got, (exact, 0)) else 1
     if r.get("op") == "sum-batched":
         rows = r["rows"]
         s = ExactScalarArray(jnp.array([[c for c, _ in rr] for rr in rows], dtype=jnp.int32), jnp.array([[p for _, p in rr] for rr in rows], dtype=jnp.int32)).sum()
